@@ -549,3 +549,34 @@ impl Engine for Sched {
         vec!["schedules are sampled (seeded yields/sleeps at the hook), not enumerated".into()]
     }
 }
+
+/// `vcheck --dump-journals <dir> <n>`: writes n small valid journals (plain) built by the real FileState - the
+/// seed corpus of the libFuzzer target /verif/fuzz/fuzz_targets/journal_load.rs
+pub fn dump_journals(dir: &std::path::Path, n: usize) {
+    std::fs::create_dir_all(dir).unwrap();
+    let rt = tokio::runtime::Builder::new_current_thread().enable_all().build().unwrap();
+    let cmds = [
+        JCmd::CreateStream { id: Some(1), name: 0 },
+        JCmd::CreateTopic { stream: 1, id: Some(1), parts: 2, name: 1 },
+        JCmd::CreateUser { name: 3, perms: None },
+        JCmd::CreateGroup { stream: 1, topic: 1, id: None, name: 4 },
+        JCmd::CreatePat { name: 2 },
+        JCmd::UpdateStream { id: 1, name: 6 },
+        JCmd::ChangePassword { user: 2 },
+        JCmd::PurgeTopic { stream: 1, topic: 1 },
+        JCmd::DeletePat { name: 2 },
+        JCmd::DeleteStream { id: 1 },
+    ];
+    for i in 0..n {
+        let scratch = ScratchDir::new("jdump");
+        let path = scratch.path.join("log").to_string_lossy().to_string();
+        let fs = file_state(&path, false);
+        rt.block_on(async {
+            fs.init().await.unwrap();
+            for k in 0..=(i % cmds.len()) {
+                fs.apply(1, build(&cmds[(i / 3 + k) % cmds.len()])).await.unwrap();
+            }
+        });
+        std::fs::copy(&path, dir.join(format!("journal-{i:03}"))).unwrap();
+    }
+}
